@@ -1775,6 +1775,65 @@ class CfgWorld:
         attrs.setdefault('pos', self.pos)
         return Obj(self.it.cls(mod_, cls_), attrs)
 
+    # ---- `except E as x`: the clause as the parser delivers it -> the tree the flow analysis sees
+    def post_parse(self):
+        it = self.it
+        pp = Obj(it.cls('ParseTreeTransforms', 'PostParse'))
+        pp.attrs.update(dict(scope_type=None, scope_node=None, specialattribute_handlers={}, context=None))
+        # the plain flags PostParse.__init__ (and its base classes) initialise with constants
+        for k in it.mro(pp.cls):
+            init = k.ci.methods.get('__init__') if isinstance(k, ClassVal) else None
+            for n in (_ast.walk(init) if init is not None else ()):
+                if isinstance(n, _ast.Assign) and len(n.targets) == 1 and isinstance(n.targets[0], _ast.Attribute) and isinstance(n.targets[0].value, _ast.Name) \
+                        and n.targets[0].value.id == 'self' and isinstance(n.value, _ast.Constant):
+                    pp.attrs.setdefault(n.targets[0].attr, n.value.value)
+        return pp
+
+    def lower_except_clause(self, clause, entries):
+        """PostParse.visit_ExceptClauseNode (interpreted) on the clause, followed by a model of the two later pipeline steps the flow analysis relies on:
+        TryFinallyStatNode.analyse_declarations deep-copies finally_clause into finally_except_clause, and analyse_declarations resolves every NameNode
+        to the local entry of its name"""
+        it = self.it
+        res = it.call(it.getattr(self.post_parse(), 'visit_ExceptClauseNode'), [clause], {})
+        if not isinstance(res, Obj) or 'ExceptClauseNode' not in it.mro_names(res.cls):
+            raise Unmodelled('PostParse.visit_ExceptClauseNode returned %r' % (res,))
+        tf_cls = it.cls('Nodes', 'TryFinallyStatNode')
+
+        def deep(o):
+            if isinstance(o, list):
+                return [deep(x) for x in o]
+            if isinstance(o, Obj) and 'Node' in it.mro_names(o.cls):
+                n = Obj(o.cls, dict(o.attrs))
+                for a in (it.getattr(o, 'child_attrs') or ()):
+                    if a in n.attrs:
+                        n.attrs[a] = deep(n.attrs[a])
+                return n
+            return o
+
+        seen = set()
+
+        def walk(o):
+            if isinstance(o, list):
+                for x in o:
+                    walk(x)
+                return
+            if not isinstance(o, Obj) or id(o) in seen:
+                return
+            seen.add(id(o))
+            names = it.mro_names(o.cls)
+            if 'NameNode' in names and o.attrs.get('entry') is None:
+                nm = o.attrs.get('name')
+                if nm not in entries:
+                    raise Unmodelled('the lowered except clause mentions the name %r' % (nm,))
+                o.attrs['entry'] = entries[nm]
+                o.attrs.setdefault('cf_state', None)
+            if tf_cls.name in names and o.attrs.get('finally_except_clause') is None and o.attrs.get('finally_clause') is not None:
+                o.attrs['finally_except_clause'] = deep(o.attrs['finally_clause'])
+            for a in (it.getattr(o, 'child_attrs') or ()):
+                walk(o.attrs.get(a))
+        walk(res)
+        return res
+
     # ---- scenario program (tuples) -> tree of the repository's node classes
     def build(self, prog, entries):
         obs = {}
@@ -1813,8 +1872,10 @@ class CfgWorld:
                     out.append((t[0], t[1], ('x', t[2])))
                 elif t[0] in ('pass', 'C') + JUMPS:
                     out.append(t)
+                elif t[0] == 'if':
+                    out.append(('if', [retag(b) for b in t[1]], retag(t[2]) if t[2] is not None else None))
                 else:
-                    raise ValueError('compound statement inside a finally clause is outside the scenario family')
+                    raise ValueError('compound statement other than `if` inside a finally clause is outside the scenario family')
             return out
 
         def stmts(block):
@@ -1867,6 +1928,14 @@ class CfgWorld:
                 return w.node('Nodes', 'ForFromStatNode', target=tn, bound1=opaque('a'), bound2=opaque('b'), step=None, body=stmts(s[3]), else_clause=opt(s[4]))
             if k == 'try':     # ('try', body, [handler body, ...], else|None)
                 clauses = [w.node('Nodes', 'ExceptClauseNode', pattern=[opaque('E')], target=None, body=stmts(b), exc_value=None) for b in s[2]]
+                return w.node('Nodes', 'TryExceptStatNode', body=stmts(s[1]), except_clauses=clauses, else_clause=opt(s[3]))
+            if k == 'tryas':   # ('tryas', body, [(target obs id, handler body), ...], else): `except E as x` clauses, lowered by the repository's own PostParse.visit_ExceptClauseNode
+                clauses = []
+                for tid, hb in s[2]:
+                    tn = name('x')
+                    obs[tid] = ('A', tn)
+                    clause = w.node('Nodes', 'ExceptClauseNode', pattern=[opaque('E')], target=tn, body=stmts(hb), exc_value=None, is_except_as=True)
+                    clauses.append(w.lower_except_clause(clause, entries))
                 return w.node('Nodes', 'TryExceptStatNode', body=stmts(s[1]), except_clauses=clauses, else_clause=opt(s[3]))
             if k == 'match':   # ('match', [(binds: bool, guard: bool, body)...])  -- case patterns are opaque; a capture pattern binds x when the case is selected
                 cases = []
@@ -1991,8 +2060,8 @@ class RefSem:
         if k == 'if':
             out = {'raise': set(S)}           # a condition may raise
             for body in s[1]:
-                self.merge(out, self.block(body, S))
-            self.merge(out, self.block(s[2], S) if s[2] is not None else {'normal': S})
+                self.merge(out, self.block(body, S, exc_copy))
+            self.merge(out, self.block(s[2], S, exc_copy) if s[2] is not None else {'normal': S})
             return out
         if k in ('while', 'for', 'forfrom'):
             body, orelse = (s[1], s[2]) if k == 'while' else (s[3], s[4])
@@ -2026,6 +2095,25 @@ class RefSem:
             if normal:
                 self.merge(out, self.block(s[3], normal) if s[3] is not None else {'normal': normal})
             return out
+        if k == 'tryas':
+            # language reference 8.4: `except E as N: suite` is translated to `except E as N: try: suite finally: del N` -- N is bound on entry of the clause
+            # and unbound again on EVERY exit of it (the implicit del does not fail when the suite has unbound N itself)
+            out = {}
+            o = self.block(s[1], S)
+            raised = o.pop('raise', set())
+            normal = o.pop('normal', set())
+            self.merge(out, o)
+            if raised:
+                out.setdefault('raise', set()).update(raised)
+                for tid, hb in s[2]:
+                    self.observe(tid, 'x', raised)
+                    ho = self.block(hb, {self.setv(st, 'x', A) for st in raised})
+                    self.merge(out, {kind: {self.setv(st, 'x', U) for st in states} for kind, states in ho.items()})
+            if normal:
+                self.merge(out, self.block(s[3], normal) if s[3] is not None else {'normal': normal})
+            return out
+        if k == 'Dq':                         # del x that tolerates an unbound x (DelStatNode.ignore_nonexisting)
+            return {'normal': {self.setv(st, s[1], U) for st in S}}
         if k == 'match':
             out = {'raise': set(S)}           # the subject / a pattern / a guard may raise
             cur = set(S)
@@ -2043,6 +2131,9 @@ class RefSem:
             out = {}
             for kind, states in self.block(s[1], S).items():
                 if not states:
+                    continue
+                if kind == 'raise' and len(s) > 3 and not s[3]:
+                    self.merge(out, {kind: states})     # TryFinallyStatNode.handle_error_case = False: the clause is not run on the exception exit
                     continue
                 f = self.block(s[2], states, exc_copy=(kind == 'raise'))
                 fn = f.pop('normal', set())
@@ -2098,6 +2189,17 @@ def show_prog(block, ind=0, mark=None):
             if s[3] is not None:
                 lines.append(pad + 'else:')
                 lines += show_prog(s[3] or [('pass',)], ind + 1, mark)
+        elif k == 'tryas':
+            lines.append(pad + 'try:')
+            lines += show_prog(s[1] or [('pass',)], ind + 1, mark)
+            for tid, hb in s[2]:
+                lines.append(pad + 'except E as x:' + m(tid))
+                lines += show_prog(hb or [('pass',)], ind + 1, mark)
+            if s[3] is not None:
+                lines.append(pad + 'else:')
+                lines += show_prog(s[3] or [('pass',)], ind + 1, mark)
+        elif k == 'Dq':
+            lines.append(pad + 'del %s  # implicit, tolerant' % s[1])
         elif k == 'match':
             lines.append(pad + 'match subject:')
             for binds, guard, body in s[1]:
@@ -2106,7 +2208,7 @@ def show_prog(block, ind=0, mark=None):
         elif k == 'tryfinally':
             lines.append(pad + 'try:')
             lines += show_prog(s[1] or [('pass',)], ind + 1, mark)
-            lines.append(pad + 'finally:')
+            lines.append(pad + 'finally:' + ('  # handle_error_case=False: not run when the body raises' if len(s) > 3 and not s[3] else ''))
             lines += show_prog(s[2] or [('pass',)], ind + 1, mark)
     return lines
 
@@ -2150,9 +2252,16 @@ def number_prog(prog):
                 b1 = blk(s[1])
                 hs = [blk(h) for h in s[2]]
                 out.append(('try', b1, hs, blk(s[3]) if s[3] is not None else None))
+            elif k == 'tryas':
+                b1 = blk(s[1])
+                hs = []
+                for h in s[2]:
+                    i = next(c)
+                    hs.append((i, blk(h)))
+                out.append(('tryas', b1, hs, blk(s[3]) if s[3] is not None else None))
             elif k == 'tryfinally':
                 b1 = blk(s[1])
-                out.append(('tryfinally', b1, blk(s[2])))
+                out.append(('tryfinally', b1, blk(s[2])) + tuple(s[3:]))
             elif k == 'match':
                 cases = []
                 for binds, guard, body in s[1]:
@@ -2200,6 +2309,12 @@ def prog_shape(prog):
                 blk(s[1])
                 for h in s[2]:
                     blk(h)
+                blk(s[3])
+            elif k == 'tryas':
+                out.append('except-as')
+                blk(s[1])
+                for h in s[2]:
+                    blk(h[1] if (len(h) == 2 and not isinstance(h[0], (tuple, list))) else h)
                 blk(s[3])
             elif k == 'tryfinally':
                 out.append('tryfinally')
@@ -2307,6 +2422,129 @@ def cfg_scenarios():
     return out
 
 
+def finally_depth_of_jumps(prog):
+    """for every jump statement of a scenario: (kind, number of `finally` clauses the jump runs before it reaches its target) -- for `return` the enclosing
+    try/finally bodies of the function, for `break` / `continue` the ones inside the innermost enclosing loop"""
+    out = []
+
+    def blk(b, fdepth, ldepth):
+        for s in b or ():
+            k = s[0]
+            if k == 'return':
+                out.append((k, fdepth))
+            elif k in ('break', 'continue'):
+                out.append((k, ldepth))
+            elif k == 'if':
+                for x in s[1]:
+                    blk(x, fdepth, ldepth)
+                blk(s[2], fdepth, ldepth)
+            elif k == 'while':
+                blk(s[1], fdepth, 0)
+                blk(s[2], fdepth, ldepth)
+            elif k in ('for', 'forfrom'):
+                blk(s[-2], fdepth, 0)
+                blk(s[-1], fdepth, ldepth)
+            elif k == 'try':
+                blk(s[1], fdepth, ldepth)
+                for h in s[2]:
+                    blk(h, fdepth, ldepth)
+                blk(s[3], fdepth, ldepth)
+            elif k == 'tryfinally':
+                blk(s[1], fdepth + 1, ldepth + 1)
+                blk(s[2], fdepth, ldepth)
+            elif k == 'match':
+                for _, _, body in s[1]:
+                    blk(body, fdepth, ldepth)
+    blk(prog, 0, 0)
+    return out
+
+
+def is_deep_finally_jump(prog):
+    """a `return` that runs three or more finally clauses, or a `break` / `continue` that runs two or more (pending finding FINDING_1 of session H3)"""
+    return any((k == 'return' and n >= 3) or (k != 'return' and n >= 2) for k, n in finally_depth_of_jumps(prog))
+
+
+def nestfin_scenarios():
+    """jumps that leave through SEVERAL nested finally clauses (unnumbered programs over x).  Shape of every program: the outermost finally clause reads x; it is
+    entered (1) by a guarded jump taken directly in the outer try body while x is bound and (2) by the same kind of jump taken inside the inner try/finally
+    statement(s) while x is unbound; the inner try body cannot fall through, so the chain  jump -> inner finally -> ... -> outer finally  is the only
+    route on which the unbound state reaches the outer clause.  Partition: jump kind x what lies between the two finally clauses (nothing, a try/except body,
+    an except handler, a loop, a third try/finally) x the inner try body (never bound / unbound by `del`) x the inner finally clause (inert, may raise, binds)
+    x the outer finally clause (reads / reads and unbinds)."""
+    a, d, r, c, ps = ('A', 'x'), ('D', 'x'), ('R', 'x'), ('C',), ('pass',)
+    out = []
+
+    def add(p):
+        if p not in out:
+            out.append(p)
+
+    def inner_bodies(J):
+        return ((False, [J]), (True, [d, J]))
+    for J in (('return',), ('break',), ('continue',)):
+        guard = ('if', [[a, J]], None)
+        wraps = [lambda body: body]
+        if J[0] != 'return':
+            # x is (re)bound / not at the loop head so that the back edge does not carry the unbound state into the outer finally clause by itself
+            wraps = [lambda body: [('while', body, None)], lambda body: [('for', 'x', body, None)]]
+        for wrap in wraps:
+            for pre, ib in inner_bodies(J):
+                P = [a] if pre else []
+                for fin in ([ps], [c], [a]):
+                    for of in ([r], [r, d]):
+                        add(P + wrap([('tryfinally', [guard, ('tryfinally', ib, fin)], of)]) + [r])
+                # something between the two finally clauses
+                add(P + wrap([('tryfinally', [guard, ('try', [('tryfinally', ib, [ps])], [[a]], None)], [r])]) + [r])
+                add(P + wrap([('tryfinally', [guard, ('try', [c], [[('tryfinally', ib, [ps])]], None)], [r])]) + [r])
+                add(P + wrap([('tryfinally', [guard, ('tryfinally', [('tryfinally', ib, [ps])], [ps])], [r])]) + [r])
+                add(P + wrap([('tryfinally', [guard, ('tryfinally', [('tryfinally', ib, [c])], [a])], [r])]) + [r])
+                # a single finally clause, the jump sits in a try/except statement inside its body (body / handler)
+                add(P + wrap([('tryfinally', [guard, ('try', ib, [[a]], None)], [r])]) + [r])
+                add(P + wrap([('tryfinally', [guard, ('try', [c], [ib], None)], [r])]) + [r])
+                if J[0] == 'return':
+                    add(P + [('tryfinally', [guard, ('while', [('tryfinally', ib, [ps])], None)], [r]), r])
+                    add(P + [('while', [('tryfinally', [guard, ('tryfinally', ib, [ps])], [r])], None), r])
+                else:
+                    # the jump leaves only the inner finally clause: the outer one belongs to an enclosing statement of the loop
+                    add(P + [('tryfinally', [('if', [[a, ('return',)]], None), ('while', [('tryfinally', ib, [ps])], None), a], [r]), r])
+            # the inner finally clause unbinds: the state AFTER it (not the state at the jump) has to reach the outer clause
+            add(wrap([('tryfinally', [guard, ('tryfinally', [a, J], [d])], [r])]) + [r])
+            add(wrap([('tryfinally', [guard, ('tryfinally', [a, J], [('if', [[d]], None)])], [r])]) + [r])
+            add(wrap([('tryfinally', [guard, ('tryfinally', [J], [('if', [[a]], [a])])], [r])]) + [r])
+            # the INNER finally clause reads; it is entered by the jump (unbound) and by falling off the inner body (bound)
+            add(wrap([('tryfinally', [('tryfinally', [('if', [[J]], None), a], [r])], [ps])]) + [r])
+            add(wrap([('tryfinally', [('try', [('tryfinally', [('if', [[J]], None), a], [r])], [[ps]], None)], [ps])]) + [r])
+    return out
+
+
+def excas_scenarios():
+    """`except E as x` clauses (unnumbered programs over x).  The clause is handed to the repository's PostParse.visit_ExceptClauseNode (interpreted), the flow
+    analysis runs on what it returns; the reference binds x on entry of the clause and unbinds it on every exit.  Partition: x bound / unbound in front of the
+    statement x how the clause suite ends (falls through after reading / rebinding / unbinding x, raises, may raise, break, continue, return) x who sees the
+    state afterwards (the next statement, an enclosing handler, an enclosing finally clause, the code after the loop, the loop head)."""
+    a, d, r, c = ('A', 'x'), ('D', 'x'), ('R', 'x'), ('C',)
+    br, co, ret, rs = ('break',), ('continue',), ('return',), ('raise',)
+    out = []
+
+    def add(p):
+        if p not in out:
+            out.append(p)
+    for P in ([], [a]):
+        for hb in ([r], [a], [d], [r, c]):
+            add(P + [('tryas', [c], [hb], None), r])
+        for hb in ([r, rs], [c], [d, rs]):
+            add(P + [('try', [('tryas', [c], [hb], None)], [[r]], None), r])
+            add(P + [('tryfinally', [('tryas', [c], [hb], None)], [r]), r])
+        for J in (br, co):
+            add(P + [('while', [('tryas', [c], [[r, J]], None)], None), r])
+            add(P + [('while', [a, ('tryas', [c], [[J]], None), a], [r]), r])
+            add(P + [('for', 'x', [('tryas', [c], [[J]], None), a], None), r])
+        add(P + [('tryfinally', [('tryas', [c], [[ret]], None), a], [r])])
+        add(P + [('tryas', [c], [[r], [a]], None), r])
+        add(P + [('tryas', [c], [[r]], [r, a]), r])
+        add(P + [('tryas', [a, c], [[r]], None), r])
+    return out
+
+
 def cfg_compare(real, got):
     """-> [(observation id, node kind, code)] for the flags that contradict the reference semantics"""
     bad = []
@@ -2323,16 +2561,28 @@ CFG_DESC = ('definedness analysis decided end to end on a family of abstract pro
             'execution reaches a name while it is unbound the analysis sets cf_maybe_null, wherever one reaches it bound it leaves cf_is_null unset')
 
 
+CFG_PARTS = {
+    # part: (rule id, scenario list, selector)
+    'main': ('C21-CFG', cfg_scenarios, lambda p: not has_del_in_try(p)),
+    'deltry': ('C21-CFG-DELTRY', cfg_scenarios, has_del_in_try),
+    'nestfin': ('C21-CFG-NESTFIN', nestfin_scenarios, lambda p: not is_deep_finally_jump(p)),
+    'deepfin': ('C21-CFG-DEEPFIN', nestfin_scenarios, is_deep_finally_jump),
+    'excas': ('C21-CFG-EXCAS', excas_scenarios, lambda p: True),
+}
+
+
 def rule_cfg(ctx, part='main', floor=0):
-    """part 'main': all scenarios without a `del` inside a try body; part 'deltry': the ones with (pending finding, see props/C21.py)"""
+    """part 'main': all scenarios without a `del` inside a try body; part 'deltry': the ones with; part 'nestfin': jumps through two nested finally clauses
+    (`return`); part 'deepfin': `return` through three, `break` / `continue` through two finally clauses (pending finding, see props/C21.py)"""
     ix = ctx.index
-    r = Rule('C21-CFG' if part == 'main' else 'C21-CFG-DELTRY', CFG_DESC, floor)
+    rid, family, select = CFG_PARTS[part]
+    r = Rule(rid, CFG_DESC, floor)
     m = ix.mod('FlowControl')
     cfa = ix.cls('FlowControl', 'ControlFlowAnalysis')
     w = CfgWorld(ix)
     worst = {}
-    for prog in cfg_scenarios():
-        if has_del_in_try(prog) != (part == 'deltry'):
+    for prog in family():
+        if not select(prog):
             continue
         nprog = number_prog(prog)
         text = ' | '.join(l.strip() if not l.startswith(' ') else l.replace('    ', '>') for l in show_prog(nprog))
